@@ -19,6 +19,7 @@ type Containment struct {
 	Sound   bool
 	Why     string
 	At      ssa.Instruction
+	ViaFlag bool // the result is stored in a boolean variable instead of being branched on
 }
 
 func isSepString(s string) bool { return s == "/" || s == `\` }
@@ -139,7 +140,14 @@ func findContainments(fn *ssa.Function) []Containment {
 			k.Conj = [][]Edge{grp}
 			k.Sound, k.Why = sepTerminated(root, map[ssa.Value]bool{})
 			if len(tE) == 0 {
-				k.Sound, k.Why = false, "result of the prefix test is not used as a branch condition"
+				if feedsBoolPhi(call) {
+					// the decision is carried in a boolean variable: it cannot be established by edges,
+					// only through flagReasons; soundness of the test itself is judged as usual
+					k.Conj = nil
+					k.ViaFlag = true
+				} else {
+					k.Sound, k.Why = false, "result of the prefix test is not used as a branch condition"
+				}
 			}
 			out = append(out, k)
 		case isFunc(o, "path/filepath", "IsLocal"):
@@ -180,6 +188,63 @@ func findContainments(fn *ssa.Function) []Containment {
 				s, ok1 := constString(cl.Call.Args[1])
 				return ok1 && (s == "../" || s == `..\`)
 			})
+			// segment-wise form: the first element of the result split at the separator is not ".."
+			isFirstSeg := func(v ssa.Value) bool {
+				switch x := v.(type) {
+				case *ssa.UnOp:
+					if x.Op != token.MUL {
+						return false
+					}
+					ia, ok := x.X.(*ssa.IndexAddr)
+					if !ok {
+						return false
+					}
+					if k, ok := constInt(ia.Index); !ok || k != 0 {
+						return false
+					}
+					cl, ok := ia.X.(*ssa.Call)
+					if !ok || !(isFunc(calleeObj(cl), "strings", "Split") || isFunc(calleeObj(cl), "strings", "SplitN")) || cl.Call.Args[0] != rel {
+						return false
+					}
+					sp, ok := constString(cl.Call.Args[1])
+					return ok && isSepString(sp)
+				case *ssa.Extract:
+					cl, ok := x.Tuple.(*ssa.Call)
+					if !ok || x.Index != 0 || !isFunc(calleeObj(cl), "strings", "Cut") || cl.Call.Args[0] != rel {
+						return false
+					}
+					sp, ok := constString(cl.Call.Args[1])
+					return ok && isSepString(sp)
+				}
+				return false
+			}
+			_, segEqF := condEdges(fn, func(c ssa.Value) bool {
+				bo, ok := c.(*ssa.BinOp)
+				if !ok || bo.Op != token.EQL {
+					return false
+				}
+				s, ok1 := constString(bo.Y)
+				return ok1 && s == ".." && isFirstSeg(bo.X)
+			})
+			segNeT, _ := condEdges(fn, func(c ssa.Value) bool {
+				bo, ok := c.(*ssa.BinOp)
+				if !ok || bo.Op != token.NEQ {
+					return false
+				}
+				s, ok1 := constString(bo.Y)
+				return ok1 && s == ".." && isFirstSeg(bo.X)
+			})
+			if seg := append(segEqF, segNeT...); len(seg) > 0 {
+				okE2, _ := okEdgesOfCall(call)
+				k := Containment{Fn: fn, Kind: "rel", Subject: call.Call.Args[1], Root: call.Call.Args[0], At: call, Conj: [][]Edge{okE2, seg}}
+				if len(okE2) == 0 {
+					k.Why = "error of filepath.Rel is not tested"
+				} else {
+					k.Sound, k.Why = true, `first path element of the filepath.Rel result is not ".."`
+				}
+				out = append(out, k)
+				continue
+			}
 			if len(notDotDot) == 0 && len(hpF) == 0 {
 				continue // Rel used to compute a name, not to decide containment
 			}
@@ -248,4 +313,79 @@ func rulePredSound(id string) func(*Checker) {
 			}
 		}
 	}
+}
+
+
+// feedsBoolPhi: the boolean value flows (directly or through short-circuit
+// lowering) into a phi.
+func feedsBoolPhi(v ssa.Value) bool {
+	refs := v.Referrers()
+	if refs == nil {
+		return false
+	}
+	for _, r := range *refs {
+		if _, ok := r.(*ssa.Phi); ok {
+			return true
+		}
+	}
+	return false
+}
+
+// flagReason is one way a boolean flag can have become true.
+type flagReason struct {
+	Cond ssa.Value // a HasPrefix call, a string equality, ...
+}
+
+// flagReasons lists the conditions whose truth can make the boolean value v
+// true: v itself when it is a test; for a phi, the incoming values, where a
+// constant true that arrives over the true edge of a condition stands for
+// that condition (short-circuit lowering), recursively. ok is false when some
+// way of becoming true cannot be attributed to a test.
+func flagReasons(v ssa.Value, seen map[ssa.Value]bool) (out []flagReason, ok bool) {
+	if seen[v] {
+		return nil, true
+	}
+	seen[v] = true
+	switch x := v.(type) {
+	case *ssa.Const:
+		if b, isB := constBool(x); isB && !b {
+			return nil, true
+		}
+		return nil, false
+	case *ssa.Call, *ssa.BinOp:
+		return []flagReason{{Cond: v}}, true
+	case *ssa.Phi:
+		ok = true
+		for i, e := range x.Edges {
+			pred := x.Block().Preds[i]
+			if b, isB := constBool(e); isB {
+				if !b {
+					continue
+				}
+				// true arriving from pred: pred's branch condition holds on that edge
+				ifi, isIf := pred.Instrs[len(pred.Instrs)-1].(*ssa.If)
+				if !isIf {
+					return nil, false
+				}
+				cond, neg := stripNot(ifi.Cond)
+				onTrue := pred.Succs[0] == x.Block()
+				if onTrue == neg {
+					return nil, false // arrives when the condition is false
+				}
+				rs, ok2 := flagReasons(cond, seen)
+				if !ok2 {
+					return nil, false
+				}
+				out = append(out, rs...)
+				continue
+			}
+			rs, ok2 := flagReasons(e, seen)
+			if !ok2 {
+				return nil, false
+			}
+			out = append(out, rs...)
+		}
+		return out, ok
+	}
+	return nil, false
 }
